@@ -147,19 +147,65 @@ def _take(cur):
     return out
 
 
+_SIB = [0]
+_SIB_WIRE = {}
+
+
+def _sibling(op, codec, kind):
+    """A second, live subscription of the SAME operator object fed with unrelated data
+    between the chunks of the stream under test (every third execution): operators are
+    factories, two subscriptions must not share compressor / decompressor state."""
+    from rx.subject import Subject
+    _SIB[0] += 1
+    if _SIB[0] % 3 != 0:
+        return lambda: None
+    sj = Subject()
+    sj.pipe(op).subscribe(on_next=lambda x: None, on_error=lambda e: None)
+    if 'plain' not in _SIB_WIRE:
+        import random as _r
+        rr = _r.Random(16)
+        _SIB_WIRE['plain'] = b''.join(bytes([rr.randrange(256)]) * rr.randint(1, 9) for _ in range(90000))
+    plain = _SIB_WIRE['plain']
+    if kind == 'c':
+        feed = [plain[i:i + 150000] for i in range(0, len(plain), 150000)]
+        cyclic = True
+    else:
+        if codec not in _SIB_WIRE:
+            import gzip as _gz
+            _SIB_WIRE[codec] = _gz.compress(plain) if codec == 'gzip' \
+                else _zstd().ZstdCompressor().compress(plain)
+        w = _SIB_WIRE[codec]
+        feed = [w[i:i + 4096] for i in range(0, len(w), 4096)]
+        cyclic = False
+    state = {'i': 0}
+
+    def poke():
+        if cyclic or state['i'] < len(feed):
+            try:
+                sj.on_next(feed[state['i'] % len(feed)])
+            except Exception:
+                pass
+            state['i'] += 1
+    return poke
+
+
 def run_compress(codec, chunks):
     """-> (bytes emitted per item, bytes emitted at completion, ended)"""
     from rx.subject import Subject
     subj = Subject()
-    cur, st = _observe(subj, _op('c', codec))
+    op = _op('c', codec)
+    cur, st = _observe(subj, op)
+    poke = _sibling(op, codec, 'c')
     couts = []
     for c in chunks:
+        poke()
         try:
             subj.on_next(c)
         except Exception as e:
             if st['ended'] == 'open':
                 st['ended'] = 'raised:%s' % type(e).__name__
         couts.append(_take(cur))
+    poke()
     try:
         subj.on_completed()
     except Exception as e:
@@ -172,10 +218,13 @@ def run_decompress(codec, pieces):
     """-> (bytes emitted per piece, bytes emitted at completion, ended, err_at)"""
     from rx.subject import Subject
     subj = Subject()
-    cur, st = _observe(subj, _op('d', codec))
+    op = _op('d', codec)
+    cur, st = _observe(subj, op)
+    poke = _sibling(op, codec, 'd')
     douts = []
     err_at = 0
     for j, c in enumerate(pieces):
+        poke()
         try:
             subj.on_next(c)
         except Exception as e:
@@ -184,6 +233,7 @@ def run_decompress(codec, pieces):
         douts.append(_take(cur))
         if err_at == 0 and st['ended'] != 'open':
             err_at = j + 1
+    poke()
     try:
         subj.on_completed()
     except Exception as e:
